@@ -225,6 +225,18 @@ class MaybeEncodingError(Exception):
         self.value = repr(value)
         super().__init__(self.exc, self.value)
 
+    @classmethod
+    def _rebuild(cls, exc, value):
+        self = cls.__new__(cls)
+        self.exc, self.value = exc, value
+        Exception.__init__(self, exc, value)
+        return self
+
+    def __reduce__(self):
+        # the default (cls, self.args) would run __init__ on the texts and
+        # quote them once more with every pickle round trip.
+        return self._rebuild, (self.exc, self.value)
+
     def __repr__(self):
         return "<%s: %s>" % (self.__class__.__name__, str(self))
 
